@@ -249,6 +249,9 @@ func runC01(c *Ctx) {
 
 		f2 := c.fn("neutrino.areHeadersConnected")
 		prevBlock := c.field(pWire, "BlockHeader", "PrevBlock")
+		for _, x := range find(f2, binops(eqOps, loadsField(prevBlock), anyVal)) {
+			c.fullRange(f2, ir.LoopHeaderOf(x.Block()), "the link-checking loop", func(v ssa.Value) bool { return v == ssa.Value(f2.Params[0]) }, 0, boolSuccess)
+		}
 		cmps := find(f2, binops(eqOps, loadsField(prevBlock), anyVal))
 		var retTrue []ssa.Instruction
 		for _, in := range find(f2, isExit) {
